@@ -477,7 +477,78 @@ def gen_cases(rng, tier, search):
         cases.append(Case({"stream": "trace", "src": src, "tape": tape, "features": sorted(g.feats)}, line,
                           tags=["trace"] + sorted(g.feats)))
     cases += value_cases(rng, tier)
+    cases += compscope_cases(rng, tier)
     return cases
+
+
+# ------------------------------------------------------------------ comprehension scope stream (Lean column: C01Comp.comp)
+def compscope_cases(rng, tier):
+    """loopvar_scope_save / recurse_assign of the loop variables / loopvar_scope_restore on a crafted symbol table holding
+    plain values, cells shared with closures and unbound cells"""
+    import json
+    out, seen = [], set()
+    for _ in range(150 if tier == "quick" else 2500):
+        names = rng.sample(["x", "y", "z", "w", "v"], rng.randrange(0, 5))
+        tbl, cells = [], []
+        for n in names:
+            k = rng.random()
+            if k < 0.4:
+                tbl.append([n, "plain", rng.randrange(50)])
+            else:
+                cells.append(None if k > 0.85 else rng.randrange(50, 99))
+                tbl.append([n, "cell", len(cells) - 1])
+        lv = rng.sample(["x", "y", "z", "w", "v"], rng.randrange(1, 4))
+        iters = [[rng.randrange(100, 200) for _ in lv] for _ in range(rng.randrange(0, 4))]
+        shape = rng.choice(["tuple", "separate"]) if len(lv) > 1 else "separate"
+        p = {"tbl": tbl, "cells": cells, "lv": lv, "iters": iters, "shape": shape}
+        key = json.dumps(p, sort_keys=True)
+        if key in seen:
+            continue
+        seen.add(key)
+        line = "C01 " + sx(["compscope", tbl, ["none" if c is None else c for c in cells], lv, iters])
+        out.append(Case({"stream": "compscope", "src": key, "tape": [], "features": ["comp-scope"]}, line,
+                        tags=["compscope"] + (["shared-cell"] if cells else [])))
+    return out
+
+
+def show_frame(tbl, cells):
+    ents = sorted(f"{n}={'p' if k == 'plain' else 'c'}{v}" for n, k, v in tbl)
+    return ",".join(ents) + ";" + ",".join("none" if c is None else str(c) for c in cells)
+
+
+async def run_compscope(key):
+    import ast
+    import json
+    import interp_env
+    from custom_components.pyscript.eval import EvalLocalVar
+    p = json.loads(key)
+    g, a = interp_env.new_ctx("c01c", {"__name__": "c01c"})
+    cell_objs = [EvalLocalVar(f"c{i}") if v is None else EvalLocalVar(f"c{i}", value=v) for i, v in enumerate(p["cells"])]
+    a.sym_table = {n: (v if k == "plain" else cell_objs[v]) for n, k, v in p["tbl"]}
+    name = lambda x: ast.Name(id=x, ctx=ast.Store())  # noqa: E731
+    if p["shape"] == "tuple":
+        gens = [ast.comprehension(target=ast.Tuple(elts=[name(x) for x in p["lv"]], ctx=ast.Store()), iter=None, ifs=[], is_async=0)]
+    else:
+        gens = [ast.comprehension(target=name(x), iter=None, ifs=[], is_async=0) for x in p["lv"]]
+    try:
+        lvars, saved = await a.loopvar_scope_save(gens)
+        try:
+            for vals in p["iters"]:
+                for x, v in zip(p["lv"], vals):
+                    await a.recurse_assign(name(x), v)
+        finally:
+            await a.loopvar_scope_restore(lvars, saved)
+    except Exception as e:  # pylint: disable=broad-except
+        return f"raise:{type(e).__name__}"
+    tbl = []
+    for n, v in a.sym_table.items():
+        if isinstance(v, EvalLocalVar):
+            idx = next((i for i, c in enumerate(cell_objs) if c is v), None)
+            tbl.append([n, "cell", idx if idx is not None else "?"])
+        else:
+            tbl.append([n, "plain", v])
+    cells = [c.get() if c.is_defined() else None for c in cell_objs]
+    return show_frame(tbl, cells)
 
 
 # ------------------------------------------------------------------ value stream
@@ -688,6 +759,13 @@ def _worker(items):
     interp_env.setup_stub(loop)
     out = []
     for src, tape, stream in items:
+        if stream == "compscope":
+            import json
+            a = loop.run_until_complete(run_compscope(src))
+            p0 = json.loads(src)
+            b = show_frame(p0["tbl"], p0["cells"])      # Python: the loop variables have their own scope
+            out.append((a, b))
+            continue
         a = loop.run_until_complete(run_pyscript(src, tape, stream))
         b = run_cpython(src, tape, stream)
         out.append((a, b))
